@@ -155,7 +155,8 @@ package raft
 
 //@ func (rpcType).createResp
 //@   requires r.storage != nil && rpcIdentity <= t && t <= rpcTimeoutNow
-//@   ensures result0 != nil
+//@   ensures result0 != nil && ptrnonnil(result0) && isfresh(ref(result0))
+//@   ensures [C20.resp-shape] t == rpcIdentity ==> istype(result0, *identityResp) && as(result0, *identityResp).result == result && as(result0, *identityResp).term == r.term
 
 // ---------------------------------------------------------------------------
 // candidate (C01, C05, C11, C16)
@@ -448,3 +449,45 @@ package raft
 //@ func os.Stat
 //@   trusted
 //@   ensures result1 == nil ==> result0 != nil
+
+// ---------------------------------------------------------------------------
+// request dispatch (C20: identity handshake arm)
+
+//@ func (*identityReq).rpcType
+//@   inline
+//@ func (*voteReq).rpcType
+//@   inline
+//@ func (*appendReq).rpcType
+//@   inline
+//@ func (*installSnapReq).rpcType
+//@   inline
+//@ func (*timeoutNowReq).rpcType
+//@   inline
+//@ func (rpcType).fromLeader
+//@   inline
+
+// STUBS until the codec contracts (C18) are in place: decoding a request only writes the request object
+//@ func (*appendReq).decode
+//@   trusted
+//@   modifies all(req)
+//@ func (*installSnapReq).decode
+//@   trusted
+//@   modifies all(req)
+//@ func (*req).decode
+//@   trusted
+//@   modifies all(req)
+
+// onRequest dispatches to the four handlers (each verified on its own) and converts panics
+//@ func (*Raft).onRequest
+//@   trusted
+//@   requires RaftWF(r)
+//@   modifies all(r), all(r.storage), all(r.storage.termVal), all(r.cnd), all(r.storage.log), all(r.storage.snaps), fs, spos, closeRequested, appendReq.numEntries, installSnapReq.size, contents(r.resolver.addrs)
+//@   ensures RaftWF(r)
+
+//@ func (*Raft).replyRPC
+//@   requires RaftWF(r) && rpc.conn != nil && ptrnonnil(rpc.req) && rpc.conn.rwc != nil
+//@   modifies *
+//@   maypanic *
+//@   ensures [C20.identity-reply] istype(old(rpc.req), *identityReq) ==> istype(rpc.resp, *identityResp) && ((as(rpc.resp, *identityResp).result == success) == (r.cid == as(old(rpc.req), *identityReq).cid && r.nid == as(old(rpc.req), *identityReq).nid))
+//@   ensures [C20.identity-no-handler] istype(old(rpc.req), *identityReq) ==> r.term == old(r.term) && r.votedFor == old(r.votedFor) && r.state == old(r.state) && r.leader == old(r.leader) && r.commitIndex == old(r.commitIndex) && r.lastLogIndex == old(r.lastLogIndex)
+//@   ensures [C17.identity-timer] istype(old(rpc.req), *identityReq) ==> result0 == (as(old(rpc.req), *identityReq).src == r.leader)
